@@ -547,6 +547,8 @@ package vanguard
 //@ |  && (w.err == nil && w.buffer != nil && w.expectingBytes >= 0 ==> blen(w.buffer) < w.expectingBytes)
 
 //@ func (*transformingWriter).Write
+// C16: no complete message (a zero-length one included) is left in the buffer when Write returns
+//@   ensures[C16] w.err == nil && w.expectingBytes != -1 ==> blen(w.buffer) < w.expectingBytes
 //@   requires twRest(w)
 //@   requires[C03] !w.rw.endWritten || len(data) == 0
 //@   step rwStep(w.rw)
@@ -934,6 +936,9 @@ package vanguard
 //@   modifies
 
 //@ func (*operation).validate
+// C13/C02: a request is refused for its compression only when it names one that is not configured;
+// "identity" (and no compression) needs no conversion and is never refused.
+//@   atcall[C13,C02,C18] newHTTPError: arg(1) == "%q compression not supported" ==> o.reqMeta.compression != "" && o.reqMeta.compression != "identity" && !has(o.compressors, o.reqMeta.compression)
 //@   ensures[C18,C02] err == nil && (typeIs(o.client.protocol, grpcClientProtocol) || typeIs(o.client.protocol, grpcWebClientProtocol) || typeIs(o.client.protocol, connectStreamClientProtocol)) ==> old(hdr(o.request.Header, "Content-Encoding")) == "" || old(hdr(o.request.Header, "Content-Encoding")) == "identity"
 //@   requires opFresh(o) && transcoder != nil
 //@   step opSame(o)
@@ -991,6 +996,11 @@ package vanguard
 //@   ensures[C02] err == nil ==> !hdrHas(headers, "Content-Type") && !hdrHas(headers, "Accept-Encoding") && !hdrHas(headers, "Connect-Protocol-Version") && !hdrHas(headers, "Connect-Timeout-Ms")
 //@   modifies mapobj(headers), op.queryVars, #LIB0
 //@ func (restClientProtocol).extractProtocolRequestHeaders
+// C18/C02: a REST request whose body is not a google.api.HttpBody is accepted as JSON only when its
+// media type (the Content-Type up to the first ';', trimmed, lower-cased) is exactly application/json;
+// anything else is given a codec name no configuration knows, so that validation rejects it with 415
+//@   ensures[C18,C02] err == nil && old(hdr(headers, "Content-Type")) != "" && uf("restHTTPBodyRequest", op) != 1 && ufs("strings.TrimSpace", ufs("strings.ToLower", ufs("strings.Cut.before", old(hdr(headers, "Content-Type")), ";"))) != "application/json" ==> r0.codec == old(hdr(headers, "Content-Type")) + "?"
+//@   ensures[C02] err == nil && (old(hdr(headers, "Content-Type")) == "" || uf("restHTTPBodyRequest", op) == 1) ==> r0.codec == "json"
 //@   ensures[C05] hdrSameExcept(headers, "Content-Type", "Content-Encoding", "Accept-Encoding", "X-Server-Timeout")
 //@   requires headers != nil && op != nil && validConf(op.methodConf) && op.restTarget != nil
 //@   ensures[C02] err == nil ==> !hdrHas(headers, "Content-Type") && !hdrHas(headers, "Content-Encoding") && !hdrHas(headers, "Accept-Encoding")
@@ -1185,7 +1195,10 @@ package vanguard
 //@   modifies
 //@ func (*routeTrie).findTarget
 //@   requires t != nil
-//@   atcall[C06] (*routeTrie).findTarget#2: child == nil || (target__1 == nil && methods__1 == nil)
+//@   atcall[C06,C18] (*routeTrie).findTarget#2: child == nil || (target__1 == nil && methods__1 == nil)
+// the same for the single-wildcard child: its answer (a target, or the method set of a 405) is final;
+// "**" is consulted only when neither the literal nor the "*" child knows the rest of the path
+//@   atcall[C06,C18] (*routeTrie).findTarget#3: (child == nil || (target__1 == nil && methods__1 == nil)) && (childAst == nil || (target__2 == nil && methods__2 == nil))
 //@   ensures[C06] r0 != nil ==> r0.verb == verb && (r0.method == method || r0.method == "*")
 //@   modifies
 // insert keeps the invariant for every node of every trie (heap-wide statement, because insert is
